@@ -293,8 +293,15 @@ func TestBIP340(t *testing.T) {
 				}
 			}
 		}
-		if got != want {
+		// Same wire form, different object (negated R / negated key: BIP-340 is x-only; replaced E: the
+		// verifier is documented to recompute the challenge and not to trust the field): the wire
+		// signature is unchanged and valid, so either verdict on the object is sound; it is recorded.
+		equivalent := alt == "obj-R-neg" || alt == "obj-pk-neg" || alt == "obj-E-replaced"
+		if got != want && !equivalent {
 			t.Fatalf("%s; altered (%s): pk=%x msg=%s sig=%x: library accept=%v, BIP-340 reference accept=%v", where, alt, apk, vlib.Hex(amsg), asig, got, want)
+		}
+		if equivalent {
+			stage = fmt.Sprintf("equivalent-object-accepted=%v", got)
 		}
 		vlib.Case(test, vlib.Desc("schnorr", "bip340", "k256", "sha256-tagged", alt, 1), true,
 			"key="+keyClass, "msg="+msgClass, "aux="+auxClass, "alt="+alt, "rejected-at="+stage, fmt.Sprintf("expected-valid=%v", want))
@@ -402,7 +409,7 @@ func TestBIP340Batch(t *testing.T) {
 			want = false
 		case "s+1":
 			sigs[at] = mk(sigs[at].R, sigs[at].S.Add(k256.NewScalarField().One()))
-			want = !sigs[at].S.IsZero() && false
+			want = false
 		case "R-other":
 			sigs[at] = mk(sigs[at].R.Add(k256.NewCurve().Generator()), sigs[at].S)
 			want = false
